@@ -27,7 +27,7 @@ macro_rules! common {
         impl Sh {
             pub fn kind(&self) -> &'static str {
                 match self { Sh::Ball(..) => "ball", Sh::Cub(..) => "cub", Sh::Cap(..) => "cap", Sh::Seg(..) => "seg", Sh::Tri(..) => "tri",
-                             Sh::Hs(..) => "hs", Sh::Hull(..) => "hull", Sh::Cyl(..) => "cyl", Sh::Cone(..) => "cone", Sh::RCub(..) => "rcub" }
+                             Sh::Hs(..) => "hs", Sh::Hull(..) => "hull", Sh::Cyl(..) => "cyl", Sh::Cone(..) => "cone", Sh::RCub(..) => "rcub", Sh::Tm(..) => "tm", Sh::Pl(..) => "pl", Sh::Comp(..) => "comp" }
             }
             /// the degenerate class of the shape itself ("" for a regular one); appended to the position class of a case
             pub fn degen(&self) -> &'static str {
@@ -36,6 +36,10 @@ macro_rules! common {
                     Sh::Cap(a, b, _) => if a == b { "+cap-zero-length" } else { "" },
                     Sh::Tri(a, b, c) => if a == b && b == c { "+tri-point" } else if a == b || b == c || a == c { "+tri-coincident-vertices" }
                                         else if collinear(a, b, c) { "+tri-collinear" } else { "" },
+                    Sh::Tm(ps) => if ps.windows(3).any(|w| w[0] == w[1] || w[1] == w[2] || w[0] == w[2]) { "+tm-coincident-vertices" }
+                                  else if ps.windows(3).any(|w| collinear(&w[0], &w[1], &w[2])) { "+tm-flat-triangle" } else { "" },
+                    Sh::Pl(ps) => if ps.windows(2).any(|w| w[0] == w[1]) { "+pl-zero-length-segment" } else { "" },
+                    Sh::Comp(_, _, t) => if *t == z() { "+comp-coincident-parts" } else { "" },
                     _ => "",
                 }
             }
@@ -51,6 +55,9 @@ macro_rules! common {
                     Sh::Cyl(h, r) => format!("cyl {} {}", hx(*h), hx(*r)),
                     Sh::Cone(h, r) => format!("cone {} {}", hx(*h), hx(*r)),
                     Sh::RCub(h, r) => format!("rcub {} {}", henc(h), hx(*r)),
+                    Sh::Tm(ps) => format!("tm {} {}", ps.len(), ps.iter().map(henc).collect::<Vec<_>>().join(" ")),
+                    Sh::Pl(ps) => format!("pl {} {}", ps.len(), ps.iter().map(henc).collect::<Vec<_>>().join(" ")),
+                    Sh::Comp(a, b, t) => format!("comp {} {} {}", a.enc(), b.enc(), henc(t)),
                 }
             }
             pub fn parse(a: &mut Args) -> Sh {
@@ -65,6 +72,9 @@ macro_rules! common {
                     "cyl" => { let h = a.f(); Sh::Cyl(h, a.f()) }
                     "cone" => { let h = a.f(); Sh::Cone(h, a.f()) }
                     "rcub" => { let h = v(a); Sh::RCub(h, a.f()) }
+                    "tm" => { let n = a.u(); Sh::Tm((0..n).map(|_| v(a)).collect()) }
+                    "pl" => { let n = a.u(); Sh::Pl((0..n).map(|_| v(a)).collect()) }
+                    "comp" => { let x = Sh::parse(a); let y = Sh::parse(a); Sh::Comp(Box::new(x), Box::new(y), v(a)) }
                     t => panic!("bad shape kind {}", t),
                 }
             }
@@ -86,6 +96,8 @@ macro_rules! common {
                     Sh::Hull(ps) => { for p in ps { o.push(*p); } if ps.len() > 1 { o.push((ps[0] + ps[1]) * 0.5); } }
                     Sh::Cyl(h, r) => { let mut t = z(); t[1] = *h; let mut e = z(); e[0] = *r; o.push(t); o.push(-t); o.push(e); o.push(t + e); o.push(-t - e); }
                     Sh::Cone(h, r) => { let mut t = z(); t[1] = *h; let mut e = z(); e[0] = *r; o.push(t); o.push(-t); o.push(-t + e); o.push(e * 0.5); }
+                    Sh::Tm(ps) | Sh::Pl(ps) => { for p in ps { o.push(*p); } if ps.len() > 1 { o.push((ps[0] + ps[1]) * 0.5); } if ps.len() > 2 { o.push(((ps[0] + ps[1]) * 0.5 + ps[2]) * 0.5); } }
+                    Sh::Comp(a, b, t) => { o.extend(a.feats()); o.extend(b.feats().into_iter().map(|p| p + t)); }
                 }
                 o
             }
@@ -244,7 +256,25 @@ macro_rules! common {
                 5 | 6 => gen_seg(r),
                 7 | 8 => gen_tri(r),
                 9 => Sh::Hs(axis(r)),
+                10 => gen_composite(r),
                 _ => gen_extra(r),
+            }
+        }
+        /// composites with degenerate parts: meshes with flat / repeated-vertex triangles, polylines with zero-length segments,
+        /// compounds whose parts coincide
+        fn gen_composite(r: &mut Rng) -> Sh {
+            let q = if r.bool() { z() } else { latv(r) };
+            let d = oblique(r); let e = oblique(r);
+            match r.below(6) {
+                0 => Sh::Tm(vec![q, q + d, q + e, q + d + e]),                       // a quad (flat when e ∥ d)
+                1 => Sh::Tm(vec![q, q + d, q + d * 2.0, q + e]),                     // first triangle collinear
+                2 => Sh::Tm(vec![q, q + d, q + d, q + e]),                           // repeated vertex
+                3 => Sh::Pl(vec![q, q + d, q + d, q + d + e]),                       // zero-length segment
+                4 => Sh::Pl(vec![q, q + d, q + d * 2.0, q + e]),                     // collinear joint
+                _ => { let t = if r.bool() { z() } else { axis(r) * ext(r) };
+                       let a = if r.bool() { Sh::Ball(ext(r)) } else { Sh::Cub(V::from_fn(|_, _| ext(r))) };
+                       let b = match r.below(3) { 0 => gen_seg(r), 1 => gen_cap(r), _ => Sh::Ball(ext(r)) };
+                       Sh::Comp(Box::new(a), Box::new(b), t) }
             }
         }
         fn gen_iso12(r: &mut Rng, s1: &Sh, s2: &Sh) -> (Isometry<Real>, &'static str) {
@@ -342,7 +372,7 @@ pub mod m3 {
     use crate::p3 as px;
     const DIM: usize = 3;
     #[derive(Clone, Debug)]
-    pub enum Sh { Ball(f64), Cub(V), Cap(V, V, f64), Seg(V, V), Tri(V, V, V), Hs(V), Hull(Vec<V>), Cyl(f64, f64), Cone(f64, f64), RCub(V, f64) }
+    pub enum Sh { Ball(f64), Cub(V), Cap(V, V, f64), Seg(V, V), Tri(V, V, V), Hs(V), Hull(Vec<V>), Cyl(f64, f64), Cone(f64, f64), RCub(V, f64), Tm(Vec<V>), Pl(Vec<V>), Comp(Box<Sh>, Box<Sh>, V) }
     impl Sh {
         pub fn build(&self) -> Option<Box<dyn Shape>> {
             use px::shape::*;
@@ -357,6 +387,12 @@ pub mod m3 {
                 Sh::Cyl(h, r) => Box::new(Cylinder::new(*h, *r)),
                 Sh::Cone(h, r) => Box::new(Cone::new(*h, *r)),
                 Sh::RCub(h, r) => Box::new(RoundCuboid { inner_shape: Cuboid::new(*h), border_radius: *r }),
+                Sh::Tm(ps) => { let pts: Vec<_> = ps.iter().map(|p| Point::from(*p)).collect();
+                                let idx: Vec<[u32; 3]> = (0..ps.len().saturating_sub(2)).map(|i| [i as u32, i as u32 + 1, i as u32 + 2]).collect();
+                                Box::new(TriMesh::new(pts, idx).ok()?) }
+                Sh::Pl(ps) => { if ps.len() < 2 { return None; } Box::new(Polyline::new(ps.iter().map(|p| Point::from(*p)).collect(), None)) }
+                Sh::Comp(a, b, t) => { let ga = a.build()?; let gb = b.build()?;
+                                       Box::new(Compound::new(vec![(Isometry::identity(), SharedShape(ga.into())), (Isometry::from_parts((*t).into(), Default::default()), SharedShape(gb.into()))])) }
             })
         }
     }
@@ -402,7 +438,7 @@ pub mod m2 {
     use crate::p2 as px;
     const DIM: usize = 2;
     #[derive(Clone, Debug)]
-    pub enum Sh { Ball(f64), Cub(V), Cap(V, V, f64), Seg(V, V), Tri(V, V, V), Hs(V), Hull(Vec<V>), Cyl(f64, f64), Cone(f64, f64), RCub(V, f64) }
+    pub enum Sh { Ball(f64), Cub(V), Cap(V, V, f64), Seg(V, V), Tri(V, V, V), Hs(V), Hull(Vec<V>), Cyl(f64, f64), Cone(f64, f64), RCub(V, f64), Tm(Vec<V>), Pl(Vec<V>), Comp(Box<Sh>, Box<Sh>, V) }
     impl Sh {
         pub fn build(&self) -> Option<Box<dyn Shape>> {
             use px::shape::*;
@@ -416,6 +452,12 @@ pub mod m2 {
                 Sh::Hull(ps) => { let pts: Vec<_> = ps.iter().map(|p| Point::from(*p)).collect(); Box::new(ConvexPolygon::from_convex_hull(&pts)?) }
                 Sh::RCub(h, r) => Box::new(RoundCuboid { inner_shape: Cuboid::new(*h), border_radius: *r }),
                 Sh::Cyl(..) | Sh::Cone(..) => return None,
+                Sh::Tm(ps) => { let pts: Vec<_> = ps.iter().map(|p| Point::from(*p)).collect();
+                                let idx: Vec<[u32; 3]> = (0..ps.len().saturating_sub(2)).map(|i| [i as u32, i as u32 + 1, i as u32 + 2]).collect();
+                                Box::new(TriMesh::new(pts, idx).ok()?) }
+                Sh::Pl(ps) => { if ps.len() < 2 { return None; } Box::new(Polyline::new(ps.iter().map(|p| Point::from(*p)).collect(), None)) }
+                Sh::Comp(a, b, t) => { let ga = a.build()?; let gb = b.build()?;
+                                       Box::new(Compound::new(vec![(Isometry::identity(), SharedShape(ga.into())), (Isometry::from_parts((*t).into(), Default::default()), SharedShape(gb.into()))])) }
             })
         }
     }
